@@ -16,7 +16,12 @@ def run(ctx):
     from . import guardvocab
     guardvocab.G0(ctx, effects={'track', 'release', 'join', 'acquire'})
     guardvocab.G1(ctx, effects={'track', 'release', 'join', 'acquire'})
+    guardvocab.G2(ctx, scopes=('rt::cell::', 'rt::location::', 'rt::atomic::', 'rt::synchronize::'))
+    guardvocab.G3(ctx, scopes=('rt::cell::', 'rt::location::', 'rt::atomic::', 'rt::synchronize::', 'cell::', 'sync::atomic::'))
     from . import races
     races.R1(ctx)
     races.R2(ctx)
     g_sync.run_all(ctx, ["Y1", "Y1c", "Y2", "Y3", "Y4", "O4", "O5"])
+    # which ordering reaches the runtime decides which edges exist, hence which races are hidden
+    from . import atomics
+    atomics.O1(ctx)
